@@ -50,6 +50,25 @@ pub fn eval_findings(sp: &Value, trace: bool) -> (Vec<Finding>, Option<RunResult
         }
     }
     // relational expectation: outcome must equal the outcome under the shipped schedule / plain allocator
+    if want == "unstable-outcome" {
+        // not a pure function of (text, plan): look for any two differing outcomes in repeated runs
+        let mut base = plan.clone();
+        base.collect = CollectPlan::Shipped;
+        base.alloc_mode = alloc::PLAIN;
+        base.trace = false;
+        let r0 = runner::run_eval(src, &base, 1, true);
+        for _ in 0..20 {
+            let rr = runner::run_eval(src, &plan, 1, true);
+            if rr.digest() != r0.digest() && rr.injected == Injected::None {
+                out.push(Finding {
+                    class: want.to_string(),
+                    key: variance_key(&r0, &rr),
+                    detail: format!("shipped/plain: {} ; same program again: {}", r0.digest(), rr.digest()),
+                });
+                break;
+            }
+        }
+    }
     if want == "schedule-variance" || want == "allocator-variance" {
         let mut base = plan.clone();
         base.collect = CollectPlan::Shipped;
